@@ -58,7 +58,8 @@ fn psym_of(t: &Tab, setc: usize) -> PartialDSym {
     let sset = SimpleDSet::from_partial(t.to_partial_dset(), setc);
     let mut ds = PartialDSym::from(sset);
     for i in 0..t.dim {
-        for d in t.orbit_reps2(i) {
+        for (members, _) in orbits_fast(t, i) {
+            let d = members[0];
             if t.v[i][d] != 0 {
                 ds.set_v(i, d, t.v[i][d]);
             }
@@ -720,11 +721,12 @@ fn large_streams(ctx: &mut Ctx, th: bool) {
         }
     }
     if th {
-        // 2^20 + 1 chambers (text ≈ 20 MB): verdict bits only.  2^24 + 1 is not run: the library's
-        // tables for one such symbol take several GB, times 16 shards
+        // 2^20 + 1 chambers (text ≈ 20 MB) and one symbol of 2^24 + 1 chambers (text ≈ 190 MB,
+        // a few GB of tables in the one shard that owns the case): verdict bits only
         bigdigest_case(ctx, "chain", (1 << 20) + 1, 2, 11);
         bigdigest_case(ctx, "blocks", (1 << 20) + 1, 3, 12);
         bigdigest_case(ctx, "blocks", (1 << 20) + 1, 1, 13);
+        bigdigest_case(ctx, "chain", (1 << 24) + 1, 1, 14);
     }
 }
 
